@@ -81,12 +81,6 @@ Definition libs_ok (L : lib) : bool := forallb (lib_ok L) all_entries.
 (* per operation: is it inside the hypotheses of Refs_repaired_bare (the innermost frame of the caller's
    stack that the resolver does not pass over binds the name in its globals, its module is known to the
    interpreter and binds the name to a non-module) -- and if so, does the model answer that object? *)
-Fixpoint first_unskipped (pkg : string) (st : list frame) : option frame :=
-  match st with
-  | [] => None
-  | f :: r => if skipped pkg f then first_unskipped pkg r else Some f
-  end.
-
 Definition bare_target (W : world) (L : lib) (s : string) (ust : list frame) : option obj :=
   if negb (is_ident s) then None else
   match first_unskipped (l_pkg L) ust with
@@ -160,9 +154,11 @@ Definition d_mod_a : table :=
   [("Node", cls 1 "mod_a"); ("Alias", cls 3 "builtins"); ("TypeNode", cls 4 "mod_a"); ("go", cls 50 "mod_a")].
 Definition d_mod_b : table := [("Node", cls 2 "mod_b"); ("go", cls 51 "mod_b")].
 Definition d_mod_c : table := [("Thing", cls 1 "mod_a"); ("mod_a", OMod "mod_a")].
+(* import mod_a as ma; import mod_a as mod_b *)
+Definition d_mod_d : table := [("ma", OMod "mod_a"); ("mod_b", OMod "mod_a")].
 
 Definition W0 : world := {|
-  w_modules := [("mod_a", d_mod_a); ("mod_b", d_mod_b); ("mod_c", d_mod_c);
+  w_modules := [("mod_a", d_mod_a); ("mod_b", d_mod_b); ("mod_c", d_mod_c); ("mod_d", d_mod_d);
                 ("builtins", [("int", cls 10 "builtins")]);
                 ("typelib.graph", [("TypeNode", cls 900 "typelib.graph")]);
                 ("app", [("webapp", OMod "app.webapp")]);
@@ -192,7 +188,7 @@ Definition fr_decode := lib_frame "typelib.api" "decode" [] [("t", a_str); ("val
 
 (* the code before the repair *)
 Definition L0 : lib := {|
-  l_pkg := "typelib";
+  l_pkg := "typelib"; l_strip_lead := false; l_caller_head := false;
   l_extract := lib_frame "typelib.py.frames" "extract" [] [("name", a_str); ("frame", a_str)];
   l_chain := fun e =>
     match e with
@@ -211,7 +207,7 @@ Definition L0 : lib := {|
 
 (* the repaired code *)
 Definition L1 : lib := {|
-  l_pkg := "typelib";
+  l_pkg := "typelib"; l_strip_lead := false; l_caller_head := false;
   l_extract := l_extract L0;
   l_chain := fun e =>
     match e with
@@ -225,6 +221,15 @@ Definition L1 : lib := {|
     end
 |}.
 
+(* the repaired code with the two later repairs of forwardref / the dotted head *)
+Definition L2 : lib := {|
+  l_pkg := "typelib"; l_strip_lead := true; l_caller_head := true;
+  l_extract := l_extract L1; l_chain := l_chain L1 |}.
+(* ... with only the first of them (the head rule pinned) *)
+Definition L2_head_pinned : lib := {|
+  l_pkg := "typelib"; l_strip_lead := true; l_caller_head := false;
+  l_extract := l_extract L1; l_chain := l_chain L1 |}.
+
 Definition user_frame (m q : string) (g l : table) : frame := {|
   f_gname := Some m; f_mod := Some m; f_qual := q; f_file := "/srv/app/" ++ m ++ ".py";
   f_globals := g; f_locals := l |}.
@@ -232,6 +237,7 @@ Definition user_frame (m q : string) (g l : table) : frame := {|
 Definition fa : frame := user_frame "mod_a" "go" d_mod_a [("v", a_str)].
 Definition fb : frame := user_frame "mod_b" "go" d_mod_b [("v", a_str)].
 Definition fc : frame := user_frame "mod_c" "go" d_mod_c [("v", a_str)].
+Definition fd : frame := user_frame "mod_d" "go" d_mod_d [("v", a_str)].
 Definition fmain : frame := user_frame "__main__" "<module>" [] [].
 (* a function of mod_b with a local variable called Node, bound to mod_a's class *)
 Definition fb_local : frame := user_frame "mod_b" "run" d_mod_b [("Node", cls 1 "mod_a")].
